@@ -108,7 +108,10 @@ def state_level(run, thorough):
                rng.randrange(60), rng.randrange(60), rng.randrange(1000000)]
         scn = {'tree': tree, 'mounts': ['/vol1'], 'cwd': cwd, 'uid': rng.choice([0, 1000]),
                'env': {'HOME': '/home/u', 'TRASH_VOLUMES': '/:/vol1'},
-               'steps': [{'cmd': 'put', 'argv': (['--force-volume', '/vol1'] if where == 'forced' else []) + ['--', arg], 'now': now},
+               'steps': [{'cmd': 'put', 'argv': (['--force-volume', '/vol1'] if where == 'forced' else []) + ['--', arg], 'now': now,
+                          # the recorded date is the clock's local time of day: trash-empty's TRASH_DATE and the time zone's daylight
+                          # saving rule have no say in it
+                          'env': rng.choice([{}, {}, {}, {'TRASH_DATE': '2001-01-01T00:00:00'}, {'TZ': 'XST5XDT,M3.2.0,M11.1.0'}, {'TZ': 'XST-1XDT,M2.3.0/2,M10.5.0/3'}])},
                          {'cmd': 'list', 'argv': []}]}
         scns.append(scn)
         metas.append({'name': name, 'parent': parent, 'full': full, 'where': where, 'sticky': sticky, 'now': now,
